@@ -38,3 +38,13 @@ Definition known_C13_n3_literal (doc : list item) : bool :=
 (* C13-n3-hash-in-term: parse_n3 cuts every line at the first '#', also inside a term. *)
 Definition known_C13_n3_hash (doc : list item) : bool :=
   existsb (fun i => match i with IStmt _ _ _ _ _ => contains_c cHASH (render_item i) | _ => false end) doc.
+
+(* C13-literal-recleaned, Turtle side: a Turtle statement whose subject or object is a quoted triple is encoded
+   through encode_term_star, which cleans the already cleaned terms of that statement a second time. *)
+Definition ttl_star_stmt (i : item) : bool :=
+  match i with
+  | IStmt _ s _ o _ => match s, o with TQuoted _ _ _, _ => true | _, TQuoted _ _ _ => true | _, _ => false end
+  | _ => false
+  end.
+Definition known_C13_ttl_reclean (doc : list item) : bool :=
+  existsb (fun i => ttl_star_stmt i && existsb term_recleaned (item_terms i)) doc.
